@@ -17,6 +17,7 @@ ASSUMPTIONS = ['reference quantizer (C01)', 'the source holds exact codes (built
                'flags of the destination are compared only for routes that start from a fresh destination']
 
 ROUTES = ('resize', 'resize_dtype', 'like=', 'like()', 'Fxp(x,sizes)', 'call', 'set_val', 'equal', 'setitem', 'fxp_like', 'value')
+# for scalar sources additionally: t[1] = x into a 1-d destination (indexed assignment of a fixed-point element)
 
 
 def fmt_grid(nws):
@@ -62,6 +63,10 @@ def convert(route, x, dst, r, o):
     if route == 'setitem':
         t[...] = x
         return t
+    if route == 'setitem_elem':
+        t2 = Fxp([0, 0], dst.signed, dst.n_word, dst.n_frac, rounding=r, overflow=o)
+        t2[1] = x
+        return t2[1]
     if route == 'fxp_like':
         return fx.fxp_like(t, x)
     raise ValueError(route)
@@ -125,7 +130,7 @@ def judge(acc, src, dst, r, o, cs, shape, route, part, by='raw'):
         acc.violation('source_changed', case, '%s -> %s route=%s: source changed from %s to %s' % (src.dtype, dst.dtype, route, before, after),
                       {'part': part, 'route': route})
     ef = (any(e[1] for e in exp), any(e[2] for e in exp), any(e[3] for e in exp))
-    if flags(y) != ef:
+    if route != 'setitem_elem' and flags(y) != ef:        # (the element view returned for setitem_elem has a status record of its own)
         acc.violation('flags', case, '%s -> %s %s/%s route=%s: destination flags %s expected %s' % (src.dtype, dst.dtype, r, o, route, flags(y), ef),
                       {'part': part, 'route': route})
     acc.sample(dict(case, codes=list(cs)[:4]), 1)
@@ -237,6 +242,9 @@ def run_shard(sh):
                     if src.n_word <= 2:
                         for c in cs:
                             judge(acc, src, dst, r, o, [c], (), route, 'E1s')
+                            if route == 'setitem':
+                                judge(acc, src, dst, r, o, [c], (), 'setitem_elem', 'E1s')
+                                judge(acc, src, dst, r, o, [c], (), 'setitem_elem', 'E1s', 'value')
                     if src.n_word in (2, 3) and (r, o) in (('trunc', 'saturate'), ('around', 'wrap')):
                         judge(acc, src, dst, r, o, cs[:4], (2, 2), route, 'E1m')
     elif sh['part'] == 'G':
